@@ -281,6 +281,23 @@ class ConstSeq:
         return f'ConstSeq{self.items}'
 
 
+class ZipV:
+    """zip(l1, ..., ln) of heap lists, not yet consumed: a sequence of length min(len li) whose element i is the tuple
+    (l1[i], ..., ln[i]); only iterated (for-loop with invariant, comprehension, quantifier), read in the current heap"""
+
+    def __init__(self, lists):
+        self.lists = list(lists)
+
+
+class CompV:
+    """list / dict comprehension over a symbolic collection whose element is a *literal of fresh lists* (`[[] for _ in xs]`,
+    `{k: ([], [[], []]) for k in d}`, `[[x] for x in xs]`): kept python-level until the declared type of its destination
+    is known (materialize), then allocated in bulk: one Skolem function per literal list (seqs.bulk_materialize)"""
+
+    def __init__(self, kind, var, guard, elt, coll):
+        self.kind, self.var, self.guard, self.elt, self.coll = kind, var, guard, elt, coll
+
+
 class ValuesView:
     def __init__(self, d, what):
         self.d, self.what = d, what   # what in values/keys/items
